@@ -403,6 +403,7 @@ pub fn run(ctx: &Ctx) -> Report {
         let mut fork = vec![cons.genesis_block().clone()];
         fork.extend(a[..6].iter().cloned());
         fork.extend(b.iter().cloned());
+        report.sample(json!({"main_blocks": main.len() - 1, "fork_blocks": b.len(), "fees": [1_000_003, 2_500_007, 777_777, 50_000_001, 1_234_567, 9_999_999, 3_333_331, 1_000_001, 4_000_009]}));
         replay(&cons, &main, "main", &json!({"chain": "main"}), &mut report);
         replay(&cons, &fork, "fork", &json!({"chain": "fork"}), &mut report);
         report.transitions += (main.len() + fork.len()) as u64;
